@@ -11,8 +11,12 @@ import (
 func gen(g *vh.Gen) {
 	o := smtpd.Opts{Garbage: 0.35, MaxBody: 120, SizeParams: true}
 	for i := 0; i < g.N(600, 30000); i++ {
-		c, pool := smtpd.GenCfg(g, o)
-		stream := smtpd.GenDialogue(g, c, pool, o)
+		oo := o
+		if g.Chance(0.15) { // small limits: oversize blocks refused in mid-connection, then the dialogue goes on
+			oo.SmallLimit = true
+		}
+		c, pool := smtpd.GenCfg(g, oo)
+		stream := smtpd.GenDialogue(g, c, pool, oo)
 		g.Emit("smtp", append(c.Fields(), vh.H(stream))...)
 	}
 	// every byte cut of valid dialogues
